@@ -360,7 +360,36 @@ func c15Cache(e *Env) {
 		info := fi.Pkg.TypesInfo
 		fname := w.FuncName(fi.Obj)
 		nFn++
-		var cacheTag, decTag, loadKey, storeKey *types.Var
+		var cacheTag, decTag, loadKey, storeKey, cacheVar *types.Var
+		loadOn, storeOn := false, false
+		// onCache: the method is applied to the variable holding tagCache(tag), or to the call itself
+		onCache := func(c *ast.CallExpr) bool {
+			se, ok := unparen(c.Fun).(*ast.SelectorExpr)
+			if !ok {
+				return false
+			}
+			switch x := unparen(se.X).(type) {
+			case *ast.Ident:
+				v, _ := info.ObjectOf(x).(*types.Var)
+				return v != nil && v == cacheVar
+			case *ast.CallExpr:
+				return calleeOf(info, x) == tc.Obj
+			}
+			return false
+		}
+		// cache := b.tagCache(tag)
+		ast.Inspect(fi.Decl.Body, func(nd ast.Node) bool {
+			as, ok := nd.(*ast.AssignStmt)
+			if !ok || len(as.Lhs) != 1 || len(as.Rhs) != 1 {
+				return true
+			}
+			if c, ok := unparen(as.Rhs[0]).(*ast.CallExpr); ok && calleeOf(info, c) == tc.Obj {
+				if id, ok := as.Lhs[0].(*ast.Ident); ok {
+					cacheVar, _ = info.ObjectOf(id).(*types.Var)
+				}
+			}
+			return true
+		})
 		var decoderCalls []*ast.CallExpr
 		validates := 0
 		ast.Inspect(fi.Decl.Body, func(nd ast.Node) bool {
@@ -376,8 +405,10 @@ func c15Cache(e *Env) {
 				decTag = usedVar(info, c.Args[1])
 			case f != nil && f.Name() == "Load" && f.Pkg() != nil && f.Pkg().Path() == "sync" && len(c.Args) == 1:
 				loadKey = usedVar(info, c.Args[0])
+				loadOn = onCache(c)
 			case f != nil && f.Name() == "Store" && f.Pkg() != nil && f.Pkg().Path() == "sync" && len(c.Args) == 2:
 				storeKey = usedVar(info, c.Args[0])
+				storeOn = onCache(c)
 			case f != nil && f.Name() == "ValidateStruct":
 				validates++
 			case f == nil:
@@ -392,6 +423,7 @@ func c15Cache(e *Env) {
 		})
 		r.Check(cacheTag != nil && cacheTag == decTag, rule, fname+":same-tag", w.Pos(fi.Decl.Pos()), "the cache and the decoder builder are selected by the same tag", "tagCache and GetReqDecoder receive different tag values: a decoder built for one tag would be cached under another")
 		r.Check(loadKey != nil && loadKey == storeKey, rule, fname+":same-key", w.Pos(fi.Decl.Pos()), "cache Load and Store use the same key", "Load and Store use different keys")
+		r.Check(loadOn && storeOn, rule, fname+":same-cache", w.Pos(fi.Decl.Pos()), "the decoder is looked up in and stored into the map selected by tagCache(tag)", "Load and Store are not both applied to the map returned by tagCache(tag): a decoder built for one tag lands in (or is served from) another tag's cache and later binds of the type use the wrong sources")
 		same := len(decoderCalls) == 2
 		if same {
 			for i := range decoderCalls[0].Args {
